@@ -1,3 +1,41 @@
+/-
+C19 (profiles) — isoform feature profiles (`FeatureProfiles.set_profiles`).
+Read-profile theorems live with C13 (Props/C13*.lean), which counts from them.
+-/
 import IsoVerif.Props.C19
+import IsoVerif.Model.Profiles
+import IsoVerif.Lemmas.Profiles
+
 namespace IsoVerif.Props.C19Profiles
+open IsoVerif.Gen IsoVerif.Model IsoVerif.Lemmas
+
+/-- soundness, for EVERY comparator and every input: a known feature is marked present only if some
+    transcript feature matches it -/
+theorem isoform_profile_sound (cmp : Iv → Iv → Bool) (features tf : List Iv) (region : Iv) (i : Nat) (k : Iv)
+    (hk : features[i]? = some k) (h1 : (setProfiles features tf region cmp).1[i]? = some 1) :
+    ∃ f ∈ tf, cmp f k = true :=
+  setProfiles_sound cmp features tf region i k hk h1
+
+/-- value domain: every entry is 1, −1 or −2; −2 exactly marks (unmatched) features outside the transcript region -/
+theorem isoform_profile_values (cmp : Iv → Iv → Bool) (features tf : List Iv) (region : Iv) (i : Nat) (k : Iv) (v : Int)
+    (hk : features[i]? = some k) (hv : (setProfiles features tf region cmp).1[i]? = some v) :
+    v = 1 ∨ (v = -1 ∧ overlaps k region = true) ∨ (v = -2 ∧ overlaps k region = false) :=
+  setProfiles_values cmp features tf region i k v hk hv
+
+theorem isoform_profile_length (cmp : Iv → Iv → Bool) (features tf : List Iv) (region : Iv) :
+    (setProfiles features tf region cmp).1.length = features.length :=
+  setProfiles_length cmp features tf region
+
+/-- completeness for the exact comparator used for intron/exon profiles (`equal_ranges … 0`, i.e. equality):
+    if the known features are strictly sorted (lexicographically, as `sorted(set(...))` yields them) and the
+    transcript's features are a strictly sorted sub-list, every feature of the transcript is marked present -/
+theorem isoform_profile_complete (features tf : List Iv) (region : Iv)
+    (hs : LexSorted features) (ht : LexSorted tf) (hsub : ∀ f ∈ tf, f ∈ features)
+    (i : Nat) (k : Iv) (hk : features[i]? = some k) (hin : k ∈ tf) :
+    (setProfiles features tf region (fun a b => equal_ranges a b 0)).1[i]? = some 1 :=
+  setProfiles_complete_eq features tf region hs ht hsub i k hk hin
+
+example : (setProfiles [(1, 2), (1, 5), (4, 5), (7, 9)] [(1, 2), (4, 5)] (1, 5) (fun a b => equal_ranges a b 0)).1
+    = [1, -1, 1, -2] := by decide +kernel
+
 end IsoVerif.Props.C19Profiles
